@@ -173,6 +173,9 @@ func (c *MapCodec) Read(data []byte, ptr unsafe.Pointer, wt plenccore.WireType) 
 			return 0, fmt.Errorf("failed to read map entry length")
 		}
 		offset += n
+		if entryLength > uint64(len(data)-offset) {
+			return 0, fmt.Errorf("map entry length %d exceeds data length", entryLength)
+		}
 		n, err := c.readMapEntry(mp, k, data[offset:offset+int(entryLength)])
 		if err != nil {
 			return 0, err
@@ -230,6 +233,9 @@ func (c *MapCodec) readMapEntry(mp, k unsafe.Pointer, data []byte) (int, error) 
 
 func (c *MapCodec) readTagAndLength(data []byte, offset int) (offset2, fieldEnd, index int, wt plenccore.WireType, err error) {
 	wt, index, n := plenccore.ReadTag(data[offset:])
+	if n < 0 {
+		return 0, 0, 0, wt, fmt.Errorf("invalid tag in entry of %s", c.rtype.Name())
+	}
 	offset += n
 	fieldEnd = len(data)
 	if wt == plenccore.WTLength {
@@ -240,10 +246,10 @@ func (c *MapCodec) readTagAndLength(data []byte, offset int) (offset2, fieldEnd,
 			return 0, 0, 0, wt, fmt.Errorf("varuint overflow reading %d of %s", index, c.rtype.Name())
 		}
 		offset += n
-		fieldEnd = int(fieldLen) + offset
-		if fieldEnd > len(data) {
+		if fieldLen > uint64(len(data)-offset) {
 			return 0, 0, 0, wt, fmt.Errorf("length %d of field %d of %s exceeds data length %d", fieldLen, index, c.rtype.Name(), len(data)-offset)
 		}
+		fieldEnd = int(fieldLen) + offset
 	}
 
 	return offset, fieldEnd, index, wt, nil
